@@ -78,7 +78,8 @@ compare)
 lattice)
     # configuration sweep, not simulation: the library must build at every supported switch combination
     work="$VERIF_DIR/work/lattice-$$"; mkdir -p "$work"; fail=0; n=0
-    for std in "" "--no-default-features"; do for ds in 0 1; do for dc in 0 1; do for tf in "" "+sse4.2" "+avx2" "+sse4.2,+avx2"; do
+    stds=("" "--no-default-features"); [ "${2:-}" = nostd ] && stds=("--no-default-features")
+    for std in "${stds[@]}"; do for ds in 0 1; do for dc in 0 1; do for tf in "" "+sse4.2" "+avx2" "+sse4.2,+avx2"; do
         n=$((n+1)); tag="std${std:+no}-ds$ds-dc$dc-tf${tf//[+.,]/}"
         ( envs=""; [ $ds = 1 ] && envs="$envs CARGO_CFG_HTTPARSE_DISABLE_SIMD=1"; [ $dc = 1 ] && envs="$envs CARGO_CFG_HTTPARSE_DISABLE_SIMD_COMPILETIME=1"
           fl="$HOOKS"; [ -n "$tf" ] && fl="$fl -C target-feature=$tf"
